@@ -41,13 +41,15 @@ ADDRS = [ECOMAX, ECOSTER, ECONET]
 
 
 CONSUMERS = [1, 2, 3, 4, 5]                  # consumers_count of the protocol object
-ROUTES = ["get", "wait_for", "attr"]          # how the user asks for the device: get(name) / wait_for(name) + get_nowait(name) /
-                                              # wait_for(name) + attribute access protocol.<name>
+ROUTES = ["get", "wait_for", "attr", "data", "subscribe"]
+# how the user asks for the device: get(name) / wait_for(name) + get_nowait(name) / wait_for(name) + attribute access
+# protocol.<name> / wait_for(name) + protocol.data[name] / a callback subscribed to the name (or protocol.data[name] when
+# the entry is already there) -- the `Route`s of Model/Entry.lean (C10.same_object_over_all_routes)
 
 
 def variant(i):
     """deterministic spread of the public-route dimensions over enumerated cases"""
-    return dict(consumers=CONSUMERS[i % 5], cbsusp=(i // 5) % 2, route=ROUTES[(i // 2) % 3], conn=bool((i // 3) % 2))
+    return dict(consumers=CONSUMERS[i % 5], cbsusp=(i // 5) % 2, route=ROUTES[(i // 2) % len(ROUTES)], conn=bool((i // 3) % 2))
 
 
 def random_variant(rng):
@@ -203,13 +205,30 @@ def run_case(case):
                     att = None
                 if att is not cur:
                     route_bad.append(f"protocol.{name_of(a)} is not the entry")
+                if (name_of(a) in proto.data) != (cur is not None) or (cur is not None and proto.data[name_of(a)] is not cur):
+                    route_bad.append(f"protocol.data[{name_of(a)!r}] is not the entry")
+                # what subscribed callbacks were handed so far (subscribe and subscribe_once) is the entry, if there is one
+                for x, d in dispatched:
+                    if x == a and cur is not None and d is not cur:
+                        route_bad.append(f"a callback subscribed to {name_of(a)!r} was handed an object that is not the entry")
 
         async def ask(addr):
             name = name_of(addr)
             if case.get("route", "get") == "get":
                 return await proto.get(name)
+            route = case.get("route")
+            if route == "subscribe":
+                if name in proto.data:
+                    return proto.data[name]
+                fut = loop.create_future()
+
+                async def handed(dev):
+                    if not fut.done():
+                        fut.set_result(dev)
+                proto.subscribe(name, handed)
+                return await fut
             await proto.wait_for(name)
-            return proto.get_nowait(name) if case.get("route") == "wait_for" else getattr(proto, name)
+            return proto.get_nowait(name) if route == "wait_for" else proto.data[name] if route == "data" else getattr(proto, name)
         fed = []      # address of every frame fed
         same = list(case.get("same") or [])   # same[i] = frame i is a byte-for-byte repeat of the previous frame from its address
         content = []  # content id of every frame fed (= index of the first frame of its run of identical frames)
@@ -515,7 +534,7 @@ def run(ctx):
     res = Result("C10")
     res.rule = ("schedule = arrangement of feed groups (1..4 frames in total, any grouping; one address, or several addresses "
                 "69 / 81 / 86 = no device class), explicit releases of the device-class imports (the rest released at the end) and "
-                "get(<name>) calls, reconnects (connection lost and re-established) at every position of the timeline; x consumers_count 1..5 x the way the user asks (get / wait_for + get_nowait / attribute access) x the reconnect route (Connection._reconnect of a Connection object owning the protocol / a plain on_connection_lost callback) x protocol-level callback suspending or not x frame contents: all distinct, or byte-identical repeats of the previous frame of the address (runs of 2..4, among the first frames and later), delivery observed at the device's event subscribers. distinct = (consumers, cbsusp, "
+                "get(<name>) calls, reconnects (connection lost and re-established) at every position of the timeline; x consumers_count 1..5 x the way the user asks (get / wait_for + get_nowait / attribute access / wait_for + protocol.data[name] / a subscribed callback; protocol.data, get_nowait, the attribute and what subscribed callbacks were handed are read after EVERY event) x the reconnect route (Connection._reconnect of a Connection object owning the protocol / a plain on_connection_lost callback) x protocol-level callback suspending or not x frame contents: all distinct, or byte-identical repeats of the previous frame of the address (runs of 2..4, among the first frames and later), delivery observed at the device's event subscribers. distinct = (consumers, cbsusp, "
                 "effective event list); non-trivial = at least two frames or a get() in the schedule")
     cases = [parse_case(ln) for _, ln in load_corpus("C10")]
     if ctx["tier"] == "thorough":
